@@ -127,6 +127,7 @@ CHECKS = {
              "reach": ["c04:settled"], "threads": True, "tier": "quick"},
             {"harness": "HarnessC05Match", "grid": {"order": [0, 1]}, "params": {"sched": 1, "requesters": 2, "responses": 2},
              "reach": ["c05:settled"], "threads": True},
+            {"harness": "HarnessC05LateResponse", "params": {"sched": 1, "P": 0}, "reach": ["c05:late-response-attempt-returned"], "threads": True},
             {"harness": "HarnessWSReceive", "params": {"sched": 1, "garbage": 1, "frag": 1, "frames": 2, "timeouts": 1}, "reach": ["c04:ws-received-one", "c04:ws-receive-error"], "threads": True, "tier": "quick"},
             {"harness": "HarnessWSSend", "params": {"sched": 1, "sends": 2, "timeouts": 1}, "reach": ["c04:ws-send-returned"], "threads": True},
             {"harness": "HarnessWSReceive", "grid": {"garbage": [0, 1]}, "params": {"sched": 1, "frag": 2, "frames": 2, "timeouts": 1}, "reach": ["c04:ws-received-one", "c04:ws-receive-error"], "threads": True, "tier": "thorough", "timeout": 3000},
@@ -286,7 +287,7 @@ CHECKS = {
                       "symbolic cancellation instant: every deadline armed on the socket is at most one poll interval (5 s) ahead and never after the "
                       "context's deadline, the context is re-examined before every blocking call, and the loop ends with the context's error - hence a "
                       "return by the deadline, or within one poll interval of a cancellation. (b) in-process Send/Receive/Accept, channel send, "
-                      "ProcessCommand, receiveSession, client FinishSession and EstablishSession, and the TCP listener's Accept are executed with a "
+                      "ProcessCommand, receiveSession, client FinishSession and EstablishSession, a send / a server FinishSession waiting for its turn behind a stuck sender, and the TCP listener's Accept are executed with a "
                       "context that has already ended or ends while they block on a silent / non-reading peer: no path leaves the caller blocked, and "
                       "the error wraps the context's error. (c) WebSocket: " + WS_NOTE + "Send to a peer that does not read (the write is blocked on the socket) and "
                       "Receive from a silent peer return with the context's error once the context ends and leave no helper goroutine behind.",
@@ -297,7 +298,7 @@ CHECKS = {
             {"harness": "HarnessC15Poll", "grid": {"op": [0, 1]}, "params": {"polls": 3}, "reach": ["c15:poll-returned"], "tier": "quick"},
             {"harness": "HarnessC15Poll", "params": {"op": 1, "polls": 3, "partial": 1}, "reach": ["c15:poll-returned"], "tier": "quick"},
             {"harness": "HarnessC15Poll", "grid": {"op": [0, 1]}, "params": {"polls": 5}, "reach": ["c15:poll-returned"], "tier": "thorough", "qtimeout": 300},
-            {"harness": "HarnessC15Block", "grid": {"op": [0, 1, 2, 3, 4, 5, 6, 7, 8], "ctxmode": [0, 1]}, "reach": ["c15:operation-returned"]},
+            {"harness": "HarnessC15Block", "grid": {"op": [0, 1, 2, 3, 4, 5, 6, 7, 8, 9, 10, 11], "ctxmode": [0, 1]}, "reach": ["c15:operation-returned"]},
             {"harness": "HarnessC15WS", "grid": {"op": [0, 1], "ctxmode": [0, 1]}, "params": {"sched": 1}, "reach": ["c15:ws-operation-returned"], "threads": True},
         ],
         "bounds": {"quick": {"poll_iterations": 3}, "thorough": {"poll_iterations": 5}},
@@ -328,9 +329,11 @@ CHECKS = {
                       "every thread choice at blocking points (and up to P pre-emptions) explored. Verdicts: the terminating call succeeds, both sides reach "
                       "the matching terminal state (the peer observes the terminal envelope), all inbound streams and receiver-done are closed on both "
                       "sides, both connections are closed, dispatch loop and serving goroutine return, Finished fires once, and no goroutine is left. "
-                      "Termination through Client.Close and Server.Close is covered by the C19 and C18 runs listed here.",
+                      "Termination through Client.Close and Server.Close is covered by the C19 and C18 runs listed here. WebSocket: a server channel over the gorilla "
+                      "model finishes its session while an application send is stuck in the socket (client not reading): both calls return, nothing panics "
+                      "(gorilla panics on concurrent writers), the connection is released.",
         "level_note": "Trusted: SSA->SMT executor, bounded cooperative scheduler (no instruction-level races), z3. Bounds: one session, <= 1 in-flight envelope "
-                      "per direction, buffers {0,1}; pre-emptions only in the dedicated race harnesses (P <= 2 / 3). Real transports' own goroutines (websocket helpers, TLS) are outside the claim.",
+                      "per direction, buffers {0,1}; pre-emptions only in the dedicated race harnesses (P <= 2 / 3). TLS and gorilla's internals (a model) are outside the claim.",
         "runs": [
             {"harness": "HarnessC13Teardown", "grid": {"who": [0, 1, 2], "buf": [0, 1]}, "params": {"sched": 1, "tbuf": 1},
              "reach": ["c13:end-settled"], "threads": True, "tier": "quick"},
@@ -338,6 +341,7 @@ CHECKS = {
              "reach": ["c13:end-settled"], "threads": True, "tier": "quick"},
             {"harness": "HarnessC13Teardown", "grid": {"who": [0, 1, 2]}, "params": {"sched": 1, "tbuf": 0, "buf": 0},
              "reach": ["c13:end-settled"], "threads": True, "tier": "thorough"},
+            {"harness": "HarnessC13WSFinishWhileSending", "grid": {"P": [0, 1]}, "params": {"sched": 1}, "reach": ["c13:ws-finish-while-sending-returned"], "threads": True},
             {"harness": "HarnessC13HangUp", "grid": {"who": [0, 1], "tbuf": [0, 1]}, "params": {"sched": 1, "P": 3},
              "reach": ["c13:hangup-settled"], "threads": True, "tier": "thorough", "timeout": 7000},
             {"harness": "HarnessC13HangUp", "grid": {"who": [0, 1], "tbuf": [0, 1], "P": [1, 2]}, "params": {"sched": 1},
